@@ -150,6 +150,99 @@ def rule_dispatch(chk):
                           "the alias `%s` is gone: PySCF's own (non-CIDER) gradient class would be used" % what)
 
 
+def _module_resolver(tree, rel):
+    """resolve calls of private module-level functions (also imported from another repo module)"""
+    def resolve(call):
+        f = call.func
+        if isinstance(f, ast.Name) and f.id.startswith("_"):
+            try:
+                return ks.locate(tree, rel, f.id)[1], list(call.args)
+            except core.AnalysisError:
+                return None
+        return None
+    return resolve
+
+
+def _raises_nie(stmts):
+    return any(isinstance(x, ast.Raise) and x.exc is not None and "NotImplementedError" in pf.src(x.exc)
+               for st in stmts for x in ast.walk(st))
+
+
+def rule_response_guards(chk):
+    """get_vxc_nldf_full_response (RKS and UKS) refuses what it cannot differentiate: (i) interpolators without a per-atom
+    grid layout -- every read of `.grid_loc_atom` comes after an unconditional `if not hasattr(<obj>, "grid_loc_atom"):
+    raise NotImplementedError`; (ii) response weights that are not the weights of the energy grid (ghost atoms) -- in
+    the loop over grids_response_cc, a guard that compares the loop's weights with grids_indexer.all_weights and raises
+    NotImplementedError comes before the first use of the weight derivatives."""
+    from sa import hinline
+    name = "get_vxc_nldf_full_response"
+    for rel in (RKSG, UKSG):
+        fn0 = ks.locate(chk.tree, rel, name)[1]
+        fn = hinline.inline_helpers(fn0, _module_resolver(chk.tree, rel), 2)
+        # (i)
+        reads = [x for x in pf.walk_no_nested(fn) if isinstance(x, ast.Attribute) and x.attr == "grid_loc_atom"
+                 and isinstance(x.ctx, ast.Load)]
+        inst = "%s:%s refuses interpolators without grid_loc_atom before reading it" % (rel, name)
+        if not reads:
+            chk.ok("unsupported-raise", inst + " (not read: not decided)", nontrivial=False)
+        else:
+            first = min(reads, key=lambda x: x.lineno)
+            guard = None
+            for st in fn.body:
+                if st.lineno >= first.lineno and any(x is first for x in ast.walk(st)):
+                    break
+                if isinstance(st, ast.If) and "grid_loc_atom" in pf.src(st.test) and (
+                        "hasattr(" in pf.src(st.test) or "getattr(" in pf.src(st.test)):
+                    if _raises_nie(st.body) or _raises_nie(st.orelse):
+                        guard = st
+            if guard is not None:
+                chk.ok("unsupported-raise", inst)
+            else:
+                chk.violation("unsupported-raise", rel, name, "grid_loc_atom guard before %s" % pf.src(first), first.lineno,
+                              "`%s` is read without a preceding `if not hasattr(<interpolator>, \"grid_loc_atom\"): raise "
+                              "NotImplementedError`: an interpolator without a per-atom grid layout (interpolator_type="
+                              "\"train_gen\") fails with AttributeError / gives no defined force instead of "
+                              "NotImplementedError" % pf.src(first), instance=inst)
+        # (ii)
+        loops = [x for x in pf.walk_no_nested(fn) if isinstance(x, ast.For) and "grids_response_cc" in pf.src(x.iter)]
+        if not loops:
+            raise core.AnalysisError("%s:%s has no loop over grids_response_cc" % (rel, name))
+        for lp in loops:
+            inst = "%s:%s response weights are checked against the energy grid before they are used" % (rel, name)
+            tnames = [x.id for x in ast.walk(lp.target) if isinstance(x, ast.Name)]
+            if len(tnames) < 3:
+                raise core.AnalysisError("%s:%s loop target %s is not (.., weight, weight1)" % (rel, name, pf.src(lp.target)))
+            w, w1 = tnames[-2], tnames[-1]
+            defs = {}
+            guard_at = None
+            use_at = None
+            for i, st in enumerate(lp.body):
+                if guard_at is None and isinstance(st, ast.If) and (_raises_nie(st.body) or _raises_nie(st.orelse)):
+                    names, text, todo = set(), pf.src(st.test), list(ks._names(st.test))
+                    while todo:
+                        nm = todo.pop()
+                        if nm in names:
+                            continue
+                        names.add(nm)
+                        for v in defs.get(nm, ()):
+                            text += " " + pf.src(v)
+                            todo.extend(ks._names(v))
+                    if w in names and "all_weights" in text:
+                        guard_at = i
+                if use_at is None and w1 in {x.id for x in ast.walk(st) if isinstance(x, ast.Name) and isinstance(x.ctx, ast.Load)}:
+                    use_at = i
+                if isinstance(st, ast.Assign) and len(st.targets) == 1 and isinstance(st.targets[0], ast.Name):
+                    defs.setdefault(st.targets[0].id, []).append(st.value)
+            if guard_at is not None and (use_at is None or guard_at < use_at):
+                chk.ok("unsupported-raise", inst)
+            else:
+                chk.violation("unsupported-raise", rel, name, "response-weight guard in loop over grids_response_cc", lp.lineno,
+                              "the loop over grids_response_cc uses the weight derivatives `%s` %s a guard that compares "
+                              "`%s` with grids.grids_indexer.all_weights and raises NotImplementedError: with ghost atoms "
+                              "PySCF's response weights belong to another partition than the energy grid and the force "
+                              "is silently wrong" % (w1, "before" if guard_at is not None else "without", w), instance=inst)
+
+
 def rule_half(chk):
     ks.half_rule(chk, "grad-half", chk.tree, [(RKSG, n) for n in GRADS] + [(UKSG, n) for n in GRADS])
 
@@ -425,6 +518,7 @@ def _analyse_rules(chk):
     chk.guard(rule_spin_mirror)
     chk.guard(rule_xyz_slots)
     chk.guard(rule_dispatch_classes)
+    chk.guard(rule_response_guards)
     chk.guard(rule_arglist_slots)
     chk.floor("grad-arglist-slots", 1, "ctypes argument lists of the interpolator")
     chk.floor("grad-xyz-slots", 8, "x/y/z component triples of the l=1 / gradient routines")
@@ -496,6 +590,13 @@ def mutants(tree):
                "fac = f0_q[ig] * f1_q[iz];", "fac = f0_q[ig] * f1_q[iy];", expect="grad-xyz-slots"),
         Mutant("l=1 backward term reads the x slot twice (C)", "ciderpress/lib/mod_cider/conv_interpolation.c",
                "f_q[ig] += dz * f_q[iz];", "f_q[ig] += dz * f_q[ix];", count=2, expect="grad-xyz-slots"),
+        Mutant("RKS grid response accepts interpolators without a per-atom layout", RKSG,
+               '    if not hasattr(ni.nldfgen.interpolator, "grid_loc_atom"):', '    if False:', count=1,
+               expect="unsupported-raise"),
+        Mutant("UKS grid response no longer checks the response weights", UKSG,
+               "        _check_response_weights(grids, weight, ip0, ip1)\n", "", expect="unsupported-raise"),
+        Mutant("response weights compared with themselves", RKSG,
+               "    ref = grids.grids_indexer.all_weights[ip0:ip1]\n", "    ref = weight\n", expect="unsupported-raise"),
         Mutant("RKS branch accepts every Kohn-Sham class", DFT, "if isinstance(self, dft.rks.RKS):",
                "if isinstance(self, dft.rks.KohnShamDFT) and not isinstance(self, dft.uks.UKS):", expect="dispatch-total"),
         Mutant("l=1 gradient block moved behind the derivative-table loop", LCAO_INTERP, "", "", fn=_l1_block_after_loop,
